@@ -72,6 +72,7 @@ func (x *c14Run) roundMsgSize(r c14Round, srv *c14Server) {
 		bigID := fmt.Sprintf("big-%d-%x", size, rng.U64())
 		markID := fmt.Sprintf("mark-%d-%x", size, rng.U64())
 		frame := c14Envelope(bigID, host.PeerID, size)
+		size = len(frame) // what is actually put on the wire
 		err1 := rcv.WS.SendText(frame)
 		var err2 error
 		if err1 == nil {
